@@ -12,6 +12,9 @@ func ComposeMultipartShortMessage(input string, coding DataCoding, reference uin
 		var m ShortMessage
 		m.DataCoding = coding
 		m.Message, err = coding.Encoding().NewEncoder().Bytes([]byte(input))
+		if err == nil && len(m.Message) > MaxShortMessageLength {
+			err = ErrShortMessageTooLarge
+		}
 		parts = []ShortMessage{m}
 		return
 	}
@@ -32,6 +35,10 @@ func ComposeMultipartShortMessage(input string, coding DataCoding, reference uin
 		}
 		header.Sequence++
 		header.Set(part.UDHeader)
+		if part.UDHeader.Len()+len(part.Message) > MaxShortMessageLength {
+			err = ErrShortMessageTooLarge
+			return
+		}
 		parts = append(parts, part)
 	}
 	return
